@@ -10,4 +10,5 @@ void vt_ktree(const char* key, const cbor_item_t* item);
 size_t vt_nodes(const cbor_item_t* item);
 /* collect the addresses of every node and every buffer reachable from item into arr (up to cap); returns count */
 size_t vt_addresses(const cbor_item_t* item, const void** arr, size_t cap);
+extern int vt_raw; /* 1: read container structure from the item fields instead of through the public getters */
 #endif
